@@ -450,11 +450,15 @@ def check(repo, run, tier):
     g(unitrules.list_path_table, repo, run, 'C09.R4')
     g(unitrules.error_wrapping, repo, run, 'C09.R5')
     g(unitrules.tag_spec, repo, run, 'C09.R3', ['!xref', '!ref'])
+    g(unitrules.xref_chain_table, repo, run, 'C09.R6')
     g.done()
 
 
 def mutants(repo):
     return [
+        Mutant('xref-asserts-it-found-itself', lambda r: in_func(r, 'XRefNode.ayns.on_evaluate_impl', "assert curr is not self", "assert curr is self"), ['C09.R6']),
+        Mutant('xref-target-named-by-previous-link', lambda r: in_func(r, 'XRefNode.ayns.on_evaluate_impl', "prefix=chain[-1]", "prefix=chain[-2]"), ['C09.R6']),
+        Mutant('xref-chain-not-recorded', lambda r: in_func(r, 'XRefNode.ayns.on_evaluate_impl', "            chain.append(str(curr))\n", ""), ['C09.R6']),
         Mutant('rethrow-loses-cause', lambda r: in_func(r, 'errors.rethrow_point', "raise error_type(error_msg=str(e), node=self, path=path, extra_node=other) from reason", "raise error_type(error_msg=str(e), node=self, path=path, extra_node=other)"), ['C09.R5']),
         Mutant('target-evaluated-under-the-reference-path', lambda r: in_func(r, 'XRefNode.ayns.on_evaluate_impl', "return ctx.evaluate_node(curr, prefix=chain[-1])", "return ctx.evaluate_node(curr)"), ['C09.R2']),
         Mutant('path-type-check-inverted', lambda r: in_func(r, 'NodePath.get_list_path', "        elif check_types:", "        elif not check_types:"), ['C09.R4']),
